@@ -206,11 +206,36 @@ Proof.
 Qed.
 
 (* ---------- the composite step ---------- *)
-Theorem reload_views bs G s bl :
-  ViewsI bs G s -> guard bs G (body s) (OReload bl) ->
-  exists s', reload fixed bl s = Ok s' /\ body s' = body s /\ ViewsI bs (g_blocks bs bl G) s'.
+Lemma blocks_ok_wf bs bl : NoDup (map fst bl) -> blocks_ok bs bl = true -> blocks_wf bs bl.
 Proof.
-  intros V Hwf. cbn [guard] in Hwf. unfold reload. cbn [fx_allsyn fixed]. eexists. split; [reflexivity|]. split; [reflexivity|].
+  intros ND Hok. unfold blocks_ok in Hok. rewrite forallb_forall in Hok.
+  assert (Hper : forall b es, In (b, es) bl -> uniq es /\ (forall e, In e es -> blockOf bs (e_pos e) = b /\ NoDup (e_tags e))).
+  { intros b es Hb. specialize (Hok (b, es) Hb). cbn [fst snd] in Hok. apply andb_true_iff in Hok as [H1 H2].
+    destruct (elems_ok_true es H1) as [U Ht]. rewrite forallb_forall in H2. split; [exact U|].
+    intros e He. split; [apply pos_eqb_eq; now apply H2 | now apply Ht]. }
+  split; [exact ND|]. split.
+  - clear Hok. induction bl as [|[k v] bl IH]; cbn [flat_map snd]; [constructor|].
+    cbn in ND. apply NoDup_cons_iff in ND as [Hn ND]. fold (posl (v ++ flat_map snd bl)). apply uniq_app.
+    + apply (Hper k v). now left.
+    + apply IH; [exact ND|]. intros b es Hb. apply Hper. now right.
+    + intros p Hp Hq. apply posl_in in Hp as [x [Hx Ex]]. destruct (Hper k v (or_introl eq_refl)) as [_ Hk]. destruct (Hk x Hx) as [Hxb _].
+      apply posl_in in Hq as [y [Hy Ey]]. apply in_flat_map in Hy as [[k' v'] [Hb' Hy]]. cbn in Hy.
+      destruct (Hper k' v' (or_intror Hb')) as [_ Hk']. destruct (Hk' y Hy) as [Hyb _].
+      apply Hn. apply in_map_iff. exists (k', v'). split; [cbn; congruence | exact Hb'].
+  - intros b es e Hb He. now apply (Hper b es Hb).
+Qed.
+
+Theorem reload_views bs G s bl :
+  ViewsI bs G s -> NoDup (map fst bl) ->
+  ViewsI bs (gstep bs (OReload bl) G) (step_or_stay fixed bs (OReload bl) s)
+  /\ body (step_or_stay fixed bs (OReload bl) s) = body s
+  /\ step fixed bs (OReload bl) s <> Panic.
+Proof.
+  intros V ND. unfold step_or_stay. cbn [step gstep]. unfold reload. cbn [fx_allsyn fx_valid fixed].
+  destruct (blocks_ok bs bl) eqn:Hok; cbn [negb andb].
+  2:{ split; [exact V | split; [reflexivity | discriminate]]. }
+  pose proof (blocks_ok_wf bs bl ND Hok) as Hwf.
+  split; [|split; [reflexivity | discriminate]].
   destruct (g_blocks_spec bs bl G (vi_uniq _ _ _ V) Hwf) as [UG' HG'].
   set (bk := store_blocks bl (blk s)).
   assert (Hbv : forall b, is_bview bs (g_blocks bs bl G) b (bget bk b)) by (intro b; now apply reload_block_view).
